@@ -27,6 +27,35 @@ Definition mterm (m : msg) : N :=
   | _ => 0
   end.
 
+
+(* small facts about record updates, proved once (inside long proofs the kernel is slow on them) *)
+Definition kq (x : node) := (log x, term x, applied x, commit x, replay_idx x, pid (sr x), cur_id (sr x)).
+
+Lemma kq_eq x y : kq x = kq y ->
+  log x = log y /\ term x = term y /\ applied x = applied y /\ commit x = commit y /\
+  replay_idx x = replay_idx y /\ pid (sr x) = pid (sr y) /\ cur_id (sr x) = cur_id (sr y).
+Proof. unfold kq. intros H. repeat split; congruence. Qed.
+
+Lemma fv_kq x y : fv x = fv y -> kq x = kq y.
+Proof. intros H. fvinj H. unfold kq. congruence. Qed.
+
+Lemma fv_set_recv n v : fv (n <| recv_t := v |>) = fv n.
+Proof. reflexivity. Qed.
+Lemma recv_set_recv n v : recv_t (n <| recv_t := v |>) = v.
+Proof. reflexivity. Qed.
+Lemma nd_raise cd s : nd (raise cd s) = nd s.
+Proof. reflexivity. Qed.
+Lemma kq_commit_meta n : kq (set_commit_meta n) = kq n.
+Proof. reflexivity. Qed.
+Lemma nd_ae_commit_none cm s : nd (ae_commit cm None s) = set_commit_meta (nd s).
+Proof. reflexivity. Qed.
+Lemma kq_sr_incoming n v : kq (n <| sr := (sr n) <| incoming := v |> |>) = kq n.
+Proof. reflexivity. Qed.
+Lemma kq_sr_store n b : kq (n <| sr := (sr n) <| stored := b |> <| incoming := None |> |>) = kq n.
+Proof. reflexivity. Qed.
+Lemma stored_sr_store n b : stored (sr (n <| sr := (sr n) <| stored := b |> <| incoming := None |> |>)) = b.
+Proof. reflexivity. Qed.
+
 Section Msg7.
 Variable c : conf.
 Variable V : list nid.
@@ -249,6 +278,39 @@ Proof.
 Qed.
 
 (* ---- snapshot pieces ---- *)
+(* what the snapshot branch does, as equations (case analysis on a small goal) *)
+Lemma aesnap_cases a t cm p (S1 : Node.S) :
+  let R := ae_body_of e a (AESnap t cm p) cm S1 in
+  kq (nd R) = kq (nd S1) \/
+  exists ps bl off len first S1b sn0,
+    p = SData bl off len first true /\
+    (if first then Some [] else incoming (sr (nd S1))) = Some ps /\
+    assemble_snap (ps ++ [(bl, off, len)]) = Good sn0 /\
+    stored (sr (nd S1b)) = Some (Good sn0) /\ kq (nd S1b) = kq (nd S1) /\
+    load_dump_ok S1b = true /\
+    R = ae_commit cm (Some (applied (nd (load_dump e true S1b))))
+          (send_next_idx a (Some (applied (nd (load_dump e true S1b)) + 1)) false true (load_dump e true S1b)).
+Proof.
+  cbv zeta. cbn [ae_body_of]. unfold set_transmission.
+  destruct p as [|bl off len first last].
+  { left. cbn [andb]. rewrite nd_ae_commit_none. apply kq_commit_meta. }
+  destruct (if first then Some [] else incoming (sr (nd S1))) as [ps|] eqn:Einc.
+  2:{ left. cbn [andb]. rewrite nd_ae_commit_none. apply kq_commit_meta. }
+  destruct last.
+  2:{ left. cbn [andb]. rewrite nd_ae_commit_none, kq_commit_meta, nd_upd. apply kq_sr_incoming. }
+  cbn [andb].
+  set (B := assemble_snap (ps ++ [(bl, off, len)])).
+  set (S1b := upd (fun n0 => n0 <| sr := (sr n0) <| stored := Some B |> <| incoming := None |> |>) S1).
+  assert (Est : stored (sr (nd S1b)) = Some B) by (unfold S1b; rewrite nd_upd; apply stored_sr_store).
+  assert (Ekb : kq (nd S1b) = kq (nd S1)) by (unfold S1b; rewrite nd_upd; apply kq_sr_store).
+  clearbody S1b.
+  destruct (load_dump_ok S1b) eqn:Eok.
+  2:{ left. destruct (load_dump_refuse_fv e S1b Eok) as [Ff _].
+      rewrite nd_ae_commit_none, kq_commit_meta, (fv_kq _ _ Ff). exact Ekb. }
+  destruct B as [sn0|k0] eqn:EB; [|unfold load_dump_ok in Eok; rewrite Est in Eok; discriminate Eok].
+  right. exists ps, bl, off, len, first, S1b, sn0. repeat split; auto.
+Qed.
+
 Lemma lg_aesnap a b x s t cm p :
   KS.kreachable V' s -> Lg x s -> Lh x -> nsn (QS s (n2 (term x))) x ->
   Rmsg a b (AESnap t cm p) s -> term x <= t ->
@@ -260,49 +322,29 @@ Proof.
   set (S1 := ae_pre e a t cm (start_S e x)) in *. clearbody S1. cbn [nd start_S] in F1.
   pose proof Hd as Hd0.
   fvinj_n F1 P.
-  assert (Psr' : sr (nd S1) = sr x) by exact Psr.
   assert (Ht1 : term (nd S1) = t).
   { rewrite Pterm. destruct (term x <? t) eqn:E; [reflexivity|]. apply N.ltb_ge in E. lia. }
   (* every outcome that keeps the log *)
-  assert (Hkeep : forall y, log y = log (nd S1) -> term y = term (nd S1) -> applied y = applied (nd S1) ->
-            commit y = commit (nd S1) -> replay_idx y = replay_idx (nd S1) ->
-            pid (sr y) = pid (sr (nd S1)) -> cur_id (sr y) = cur_id (sr (nd S1)) ->
-            Lg y s /\ Lh y /\ term y = t).
-  { intros y E1 E2 E3 E4 E5 E6 E7.
+  assert (Hkeep : forall y, kq y = kq (nd S1) -> Lg y s /\ Lh y /\ term y = t).
+  { intros y Ey. destruct (kq_eq _ _ Ey) as (E1 & E2 & E3 & E4 & E5 & E6 & E7).
     assert (Hty : term x <= term y) by lia.
     destruct (keepL x y s) as [A B]; auto; try congruence.
     split; auto. split; auto. congruence. }
-  assert (Hsa : a < RO_BASE /\ a <> b /\ some_ae t a s).
-  { destruct p as [|bl off len first last]; cbn in Hm; tauto. }
-  destruct Hsa as (Ha & Hne & Hs).
-  cbn [ae_body_of].
-  destruct p as [|bl off len first last]; [cbn [set_transmission]; apply Hkeep; reflexivity|].
-  destruct Hm as (_ & _ & _ & Hbv & Himg).
-  unfold set_transmission.
-  set (inc := if first then Some [] else incoming (sr (nd S1))) in *.
-  assert (Hinc : forall ps, inc = Some ps -> forall bl0 o l, In (bl0, o, l) ps -> blob_valid s (n2 t) bl0).
-  { intros ps Ei bl0 o l Hin. unfold inc in Ei. destruct first.
-    - injection Ei as <-. destruct Hin.
-    - rewrite Psr' in Ei. destruct NS as (_ & _ & N3). pose proof (N3 ps bl0 o l Ei Hin) as Hq.
+  destruct (aesnap_cases a t cm p S1) as [Ek|(ps & bl & off & len & first & S1b & sn0 & -> & Einc & EB & Est & Ekb & Eok & ER)].
+  { apply Hkeep. exact Ek. }
+  remember (ae_body_of e a (AESnap t cm (SData bl off len first true)) cm S1) as R eqn:ER0. clear ER0.
+  destruct Hm as (Ha & Hne & Hs & Hbv & Himg).
+  assert (Hinc : forall bl0 o l, In (bl0, o, l) ps -> blob_valid s (n2 t) bl0).
+  { intros bl0 o l Hin. destruct first.
+    - injection Einc as <-. destruct Hin.
+    - rewrite Psr in Einc. destruct NS as (_ & _ & N3). pose proof (N3 ps bl0 o l Einc Hin) as Hq.
       destruct bl0 as [sn|k0]; [|exact I]. destruct Hq as [Hq _]. cbn. eapply snap_valid_le; [|exact Hq]. lia. }
-  clearbody inc.
-  destruct inc as [ps|]; [|apply Hkeep; reflexivity].
-  specialize (Hinc ps eq_refl).
   set (ps' := ps ++ [(bl, off, len)]) in *.
   assert (Hps' : forall bl0 o l, In (bl0, o, l) ps' -> blob_valid s (n2 t) bl0).
   { intros bl0 o l Hin. unfold ps' in Hin. apply in_app_or in Hin as [Hin|[Hin|[]]].
     - eapply Hinc; eauto.
     - injection Hin as <- _ _. exact Hbv. }
-  destruct last; [|cbn [andb]; apply Hkeep; reflexivity].
-  cbn [andb].
-  set (B := assemble_snap ps') in *.
-  set (S1b := upd (fun n0 => n0 <| sr := (sr n0) <| stored := Some B |> <| incoming := None |> |>) S1) in *.
-  assert (Est : stored (sr (nd S1b)) = Some B) by reflexivity.
-  destruct (load_dump_ok S1b) eqn:Eok.
-  2:{ destruct (load_dump_refuse_fv e S1b Eok) as [Ff _].
-      set (S2 := load_dump e true S1b) in *. clearbody S2. fvinj_n Ff Q.
-      apply Hkeep; cbn [nd ae_commit]; unfold set_commit_meta; cbn; try congruence; rewrite Qsr; reflexivity. }
-  destruct B as [sn0|k0] eqn:EB; [|unfold load_dump_ok in Eok; rewrite Est in Eok; discriminate Eok].
+  destruct (kq_eq _ _ Ekb) as (Blog & Bterm & Bapplied & Bcommit & Breplay & Bpid & Bcur).
   (* the install *)
   assert (Hv0 : snap_valid s (n2 t) sn0).
   { destruct (assemble_good _ _ EB) as ((o0 & l0 & r0 & Eps) & _).
@@ -318,31 +360,30 @@ Proof.
   destruct Hi0 as (Wl & Hin & HlenW & N1 & N0).
   destruct (Lg_full x s HR G) as (full & GL & W & Sx & CA & CC).
   destruct H as [B1 B2 B3].
-  destruct (install_outcome_g s x S1b sn0 Wl full t a cm HR GL W Sx B2 B1 Plog Preplay Papplied Est Eok
+  destruct (install_outcome_g s x S1b sn0 Wl full t a cm HR GL W Sx B2 B1 (eq_trans Blog Plog)
+              (eq_trans Breplay Preplay) (eq_trans Bapplied Papplied) Est Eok
               (ex_intro (fun Tb => snap_valid s Tb sn0) _ Hv0) Hin HlenW N1 N0)
     as (lg & rp & Sx' & Hfi' & Hrp1 & Hrp2 & Ffv).
   set (K := eidx (s_e1 sn0)) in *.
   set (S2 := load_dump e true S1b) in *. clearbody S2.
   fvinj_n Ffv Q.
-  rewrite Qapplied.
-  destruct (ae_tail2 a cm K S2) as [F3 _]. cbv zeta in F3.
-  set (S3 := ae_commit cm (Some K) (send_next_idx a (Some (K + 1)) false true S2)) in *. clearbody S3.
+  rewrite Qapplied in ER.
+  destruct (ae_tail2 a cm K S2) as [F3 _]. cbv zeta in F3. rewrite <- ER in F3. clear ER.
   fvinj_n F3 T.
   assert (HapK : applied x < K).
   { unfold load_dump_ok in Eok. rewrite Est in Eok. apply andb_prop in Eok as [Eok _].
-    change (applied (nd S1b)) with (applied (nd S1)) in Eok. rewrite Papplied in Eok. fold K in Eok. lia. }
+    rewrite Bapplied, Papplied in Eok. fold K in Eok. lia. }
   assert (Hp0 : nth_error full (n2 1 - 1) = Some e00) by (apply (glog_e0 s full HR GL)).
   destruct (learn_accept s full t a 1 0 Wl cm e00 (n2 (term x)) HR GL Hin ltac:(lia) Hp0 eq_refl ltac:(lia))
     as (A1 & A2 & A3 & A4 & A5 & A6). cbv zeta in A1, A2, A3, A4, A5, A6.
   change (n2 1) with 1%nat in A1, A2, A3, A4, A5, A6.
   set (full' := firstn 1 full ++ l1merge (skipn 1 full) Wl) in *.
-  assert (Ht3 : term (nd S3) = t).
-  { rewrite Tterm, Qterm. exact Ht1. }
+  assert (Ht3 : term (nd R) = t).
+  { rewrite Tterm, Qterm, Bterm. exact Ht1. }
   assert (Ek : (1 + length Wl)%nat = n2 K) by lia.
   split; [|split; [|exact Ht3]].
   - exists full'. split; [exact A1|]. split; [rewrite Tlog, Qlog; exact Sx'|].
-    rewrite Ht3, Tapplied, Qapplied, Tcommit, Qcommit.
-    change (commit (nd S1b)) with (commit (nd S1)). rewrite Pcommit.
+    rewrite Ht3, Tapplied, Qapplied, Tcommit, Qcommit, Bcommit, Pcommit.
     assert (CK : S7.committed_upto s (n2 t) (absL pk full') (n2 K)).
     { destruct Hv0 as (_ & _ & K2 & T0 & p0 & D & Ht0 & Lp & E1 & E0). fold K in K2, Lp, E1, E0.
       apply (A5 _ (M.llog s T0)); [lia|]. split.
@@ -353,11 +394,44 @@ Proof.
   - constructor; rewrite ?Tlog, ?Tapplied, ?Treplay, ?Tsr, ?Qlog, ?Qapplied, ?Qreplay, ?Qsr.
     + exact Hrp2.
     + exact Hfi'.
-    + change (sr (nd S1b)) with ((sr (nd S1)) <| stored := Some (Good sn0) |> <| incoming := None |>).
-      rewrite Psr'. cbn. intros Hp. specialize (B3 Hp). lia.
+    + rewrite Bpid, Bcur, Psr. intros Hp. specialize (B3 Hp). lia.
 Qed.
 
 (* ---- pieces of a large entry ---- *)
+Lemma aepiece_cases a t cm prev lab off len en (S1 : Node.S) :
+  let R := ae_body_of e a (AEPiece t cm prev lab off len en) cm S1 in
+  (fv (nd R) = fv (nd S1) /\
+   forall en0 o l, In (en0, o, l) (recv_t (nd R)) -> In (en0, o, l) (recv_t (nd S1)) \/ en0 = en) \/
+  (exists en' r0 rs S3,
+     recv_t (nd S1) = r0 :: rs /\ assemble_entry ((r0 :: rs) ++ [(en, off, len)]) = Some en' /\
+     fv (nd S3) = fv (nd S1) /\ recv_t (nd S3) = [] /\ R = ae_regular e a cm prev [en'] S3).
+Proof.
+  cbv zeta. cbn [ae_body_of].
+  destruct (lab =? 1).
+  { left. split.
+    - rewrite nd_send_next_idx, nd_upd. apply fv_set_recv.
+    - intros en0 o l Hi. rewrite nd_send_next_idx, nd_upd, recv_set_recv in Hi. destruct Hi as [Hi|[]].
+      injection Hi as <- _ _. right. reflexivity. }
+  destruct (recv_t (nd S1)) as [|r0 rs] eqn:Ert.
+  { left. split; [rewrite nd_raise; reflexivity|]. intros en0 o l Hi. rewrite nd_raise, Ert in Hi. destruct Hi. }
+  set (S2 := upd (fun n0 => n0 <| recv_t := recv_t n0 ++ [(en, off, len)] |>) S1).
+  assert (Er2 : recv_t (nd S2) = (r0 :: rs) ++ [(en, off, len)]).
+  { unfold S2. rewrite nd_upd, recv_set_recv, Ert. reflexivity. }
+  assert (F2 : fv (nd S2) = fv (nd S1)) by (unfold S2; rewrite nd_upd; apply fv_set_recv).
+  clearbody S2.
+  assert (Hin2 : forall en0 o l, In (en0, o, l) (recv_t (nd S2)) -> In (en0, o, l) (r0 :: rs) \/ en0 = en).
+  { intros en0 o l Hi. rewrite Er2 in Hi.
+    apply in_app_or in Hi as [Hi|[Hi|[]]]; [left; exact Hi|]. injection Hi as <- _ _. right. reflexivity. }
+  destruct (lab =? 2).
+  { left. split; [rewrite nd_send_next_idx; exact F2|].
+    intros en0 o l Hi. rewrite nd_send_next_idx in Hi. apply Hin2. exact Hi. }
+  destruct (assemble_entry (recv_t (nd S2))) as [en'|] eqn:Eas.
+  2:{ left. split; [rewrite nd_raise; exact F2|]. intros en0 o l Hi. rewrite nd_raise in Hi. apply Hin2. exact Hi. }
+  right. exists en', r0, rs, (upd (fun n0 => n0 <| recv_t := [] |>) S2).
+  split; [reflexivity|]. split; [rewrite <- Er2; exact Eas|].
+  split; [rewrite nd_upd, fv_set_recv; exact F2|]. split; [rewrite nd_upd; apply recv_set_recv|reflexivity].
+Qed.
+
 Lemma lg_aepiece a b x s t cm prev lab off len en :
   KS.kreachable V' s -> Lg x s -> Lh x -> recv_ok s x ->
   Rmsg a b (AEPiece t cm prev lab off len en) s -> term x <= t ->
@@ -373,57 +447,36 @@ Proof.
   fvinj_n F1 P.
   assert (Ht1 : term (nd S1) = t).
   { rewrite Pterm. destruct (term x <? t) eqn:E; [reflexivity|]. apply N.ltb_ge in E. lia. }
-  assert (Hfail : forall S', fv (nd S') = fv (nd S1) ->
-                  (forall en0 o l, In (en0, o, l) (recv_t (nd S')) -> In (en0, o, l) (recv_t (nd S1)) \/ en0 = en) ->
-                  Lg (nd S') s /\ Lh (nd S') /\ term (nd S') = t /\ recv_ok s (nd S')).
-  { intros S' F Hin. fvinj_n F Q.
-    assert (Hty : term x <= term (nd S')) by (rewrite Qterm, Ht1; exact Et).
-    destruct (keepL x (nd S') s) as [A B]; auto; try congruence; try (rewrite Qsr, Psr; reflexivity).
+  destruct (aepiece_cases a t cm prev lab off len en S1) as [[F Hin]|(en' & r0 & rs & S3 & Ert & Eas & F3 & Er3 & ER)].
+  - remember (ae_body_of e a (AEPiece t cm prev lab off len en) cm S1) as R eqn:ER0. clear ER0.
+    fvinj_n F Q.
+    assert (Hty : term x <= term (nd R)) by (rewrite Qterm, Ht1; exact Et).
+    destruct (keepL x (nd R) s) as [A B]; auto; try congruence; try (rewrite Qsr, Psr; reflexivity).
     split; auto. split; auto. split; [congruence|].
     intros en0 o l Hi. destruct (Hin en0 o l Hi) as [Hi'| ->]; [|exact Hlg].
-    rewrite Er in Hi'. eapply Hrv; eauto. }
-  cbn [ae_body_of].
-  destruct (lab =? 1).
-  { apply Hfail.
-    - rewrite nd_send_next_idx, nd_upd. reflexivity.
-    - intros en0 o l Hi. rewrite nd_send_next_idx, nd_upd in Hi. cbn in Hi. destruct Hi as [Hi|[]].
-      injection Hi as <- _ _. right. reflexivity. }
-  destruct (recv_t (nd S1)) as [|r0 rs] eqn:Ert.
-  { apply Hfail; [reflexivity|]. intros en0 o l Hi. cbn in Hi. rewrite Ert in Hi. destruct Hi. }
-  set (S2 := upd (fun n0 => n0 <| recv_t := recv_t n0 ++ [(en, off, len)] |>) S1).
-  assert (Hin2 : forall en0 o l, In (en0, o, l) (recv_t (nd S2)) -> In (en0, o, l) (r0 :: rs) \/ en0 = en).
-  { intros en0 o l Hi. unfold S2 in Hi. rewrite nd_upd in Hi. cbn in Hi. rewrite Ert in Hi.
-    apply in_app_or in Hi as [Hi|[Hi|[]]]; [left; exact Hi|]. injection Hi as <- _ _. right. reflexivity. }
-  destruct (lab =? 2).
-  { apply Hfail.
-    - rewrite nd_send_next_idx. reflexivity.
-    - intros en0 o l Hi. rewrite nd_send_next_idx in Hi. apply Hin2. exact Hi. }
-  assert (F2 : fv (nd S2) = fv (nd S1)) by reflexivity.
-  destruct (assemble_entry (recv_t (nd S2))) as [en'|] eqn:Eas.
-  2:{ apply Hfail; [exact F2|]. intros en0 o l Hi. apply Hin2. exact Hi. }
-  assert (Een : en' = en).
-  { unfold S2 in Eas. rewrite nd_upd in Eas. cbn [recv_t set] in Eas. rewrite Ert in Eas.
-    destruct r0 as [[en1 o1] l1]. unfold assemble_entry in Eas. cbn [app] in Eas.
-    destruct (pieces_ok en1 0 ((en1, o1, l1) :: rs ++ [(en, off, len)])) eqn:Ep; [|discriminate Eas].
-    injection Eas as <-.
-    apply (pieces_ok_last c V NDV VRO VNE Hb1 Hdyn e Hc en1 ((en1, o1, l1) :: rs) en off len 0) in Ep.
-    apply (legit_eqb c s en1 en); auto.
-    apply (Hrv en1 o1 l1). rewrite <- Er. left. reflexivity. }
-  subst en'.
-  set (S3 := upd (fun n0 => n0 <| recv_t := [] |>) S2).
-  assert (F3 : fv (nd S3) = fv (x <| term := if term x <? t then t else term x |>
+    rewrite Er in Hi'. eapply Hrv; eauto.
+  - rewrite ER.
+    assert (Een : en' = en).
+    { destruct r0 as [[en1 o1] l1]. unfold assemble_entry in Eas. cbn [app] in Eas.
+      destruct (pieces_ok en1 0 ((en1, o1, l1) :: rs ++ [(en, off, len)])) eqn:Ep; [|discriminate Eas].
+      injection Eas as <-.
+      apply (pieces_ok_last c V NDV VRO VNE Hb1 Hdyn e Hc en1 ((en1, o1, l1) :: rs) en off len 0) in Ep.
+      apply (legit_eqb c s en1 en); auto.
+      apply (Hrv en1 o1 l1). rewrite <- Er, Ert. left. reflexivity. }
+    subst en'.
+    assert (F3' : fv (nd S3) = fv (x <| term := if term x <? t then t else term x |>
                            <| voted := if term x <? t then None else voted x |>
-                           <| role := FOLLOWER |>)) by exact F1.
-  assert (Hm' : Rmsg a b (AE t cm prev [en]) s).
-  { destruct prev as [[pi pt]|]; cbn.
-    - split; auto. split; auto. split; [constructor; [exact I|constructor]|]. apply (Himg pi pt eq_refl).
-    - auto. }
-  destruct (lg_ae_regular a b S3 x s t cm prev [en] HR G H Et F3 Hm') as (A & B & C).
-  split; auto. split; auto. split; auto.
-  intros en0 o l Hi.
-  assert (E0 : recv_t (nd (ae_regular e a cm prev [en] S3)) = recv_t (nd S3)).
-  { apply (fr_ae_regular recv_t); intros; reflexivity. }
-  rewrite E0 in Hi. destruct Hi.
+                           <| role := FOLLOWER |>)) by (rewrite F3; exact F1).
+    assert (Hm' : Rmsg a b (AE t cm prev [en]) s).
+    { destruct prev as [[pi pt]|]; cbn.
+      - split; auto. split; auto. split; [constructor; [exact I|constructor]|]. apply (Himg pi pt eq_refl).
+      - auto. }
+    destruct (lg_ae_regular a b S3 x s t cm prev [en] HR G H Et F3' Hm') as (A & B & C).
+    split; auto. split; auto. split; auto.
+    intros en0 o l Hi.
+    assert (E0 : recv_t (nd (ae_regular e a cm prev [en] S3)) = recv_t (nd S3)).
+    { apply (fr_ae_regular recv_t); intros; reflexivity. }
+    rewrite E0, Er3 in Hi. destruct Hi.
 Qed.
 
 (* ---- messages that are not append_entries ---- *)
@@ -464,7 +517,7 @@ Proof.
   assert (Hold : forall t, t < term x -> mterm m = t -> nd (on_message e a m x) = x ->
             Lg (nd (on_message e a m x)) s /\ Lh (nd (on_message e a m x)) /\ recv_ok s (nd (on_message e a m x)) /\
             term x <= term (nd (on_message e a m x)) /\ mterm m <= term (nd (on_message e a m x))).
-  { intros t Hlt Hmt En. rewrite En, Hmt. repeat split; auto; try apply H; lia. }
+  { intros t Hlt Hmt En. rewrite En, Hmt. split; [exact G|]. split; [exact H|]. split; [exact Rv|]. lia. }
   destruct m as [t li lt|t|t cm prev es|t cm prev lab off len en|t cm p|cm req|req okr p q|t nx rs su];
     try (apply Hother; [exact I|reflexivity]).
   - (* AE *)
